@@ -58,6 +58,10 @@ class TestRaised(Exception):
     """default exception class raised by the scripted test"""
 
 
+class Refused(Exception):
+    """the strategy's own option parser refused the options (start-up validation)"""
+
+
 class CapHit(BaseException):
     """raised when a run exceeds the test cap (non-termination guard)"""
 
@@ -124,6 +128,24 @@ class Clock:
             self.log.append(("K", v))
         return v
 
+    # the other clocks of the time module tick with the same script but have ANOTHER epoch, as in reality (wall-clock
+    # seconds since 1970 vs seconds since boot): code that mixes two clocks goes as wrong here as it would there
+    def monotonic(self):
+        return self.time() - 1.7e9
+
+    def perf_counter(self):
+        return self.time() - 1.7e9
+
+    def time_ns(self):
+        return int(self.time() * 1e9)
+
+    def monotonic_ns(self):
+        return int(self.monotonic() * 1e9)
+
+    def __getattr__(self, name):
+        import time as _t
+        return getattr(_t, name)
+
 
 def verdict_from_string(s):
     return lambda k, data: (s[k - 1] if 0 < k <= len(s) else "N")
@@ -150,6 +172,19 @@ def _cli_expressible(cfg):
 def make_strategy(name, cfg):
     import lithium.strategies as st
     s = getattr(st, STRATS[name])()
+    if "argv" in cfg:
+        # raw strategy options exactly as given on a command line; a refusal (parser.error) is reported to the caller
+        import argparse
+        import contextlib
+        import io
+        parser = argparse.ArgumentParser()
+        s.add_args(parser)
+        try:
+            with contextlib.redirect_stderr(io.StringIO()):
+                s.process_args(parser, parser.parse_args(list(cfg["argv"])))
+        except SystemExit:
+            raise Refused(cfg["argv"]) from None
+        return s
     if name != "check-only" and _cli_expressible(cfg):
         # the way a user configures a strategy: its own add_args / process_args on a real parser
         import argparse
@@ -350,6 +385,8 @@ def model_line(strategy, cfg, tc, file0, verdicts, clock=(), fuel=200000, extra=
         return f"run replay {enc_steps(steps)} {enc_tc(tc)} {hx(file0)} {verdicts or '-'} {fuel}"
     if strategy == "check-only":
         return f"run check-only {enc_tc(tc)} {hx(file0)} {verdicts or '-'}"
+    if strategy == "minimize-balanced" and cfg.get("move"):
+        strategy = "minimize-balanced-move"      # concrete model Model/PairsMove.v
     return (f"run {strategy} {cfg.get('min', 1)} {cfg.get('max', 2 ** 30)} {cfg.get('repeat', 'last')} "
             f"{'T' if cfg.get('first') else 'F'} {enc_opt(cfg.get('limit'))} {clk} {extra}"
             f"{enc_tc(tc)} {hx(file0)} {verdicts or '-'} {fuel}")
@@ -429,6 +466,23 @@ def impl_session(steps, exc_class=TestRaised, ext=".txt", watchdog=60.0):
                 return real_dump(self_, *a, **kw)
             if step.get("write_fault") is not None:
                 tcs.Testcase.dump = faulty_dump
+            # open_fault = (k, times, exception class name): the k-th .. (k+times-1)-th attempt to OPEN the testcase
+            # file for writing fails (nothing is truncated); later attempts work again
+            ofault = {"spec": step.get("open_fault"), "n": 0, "last_failed": False}
+            real_open = open
+
+            def flaky_open(p, mode="r", *a, **kw):
+                if ofault["spec"] and any(c in mode for c in "wax+") and os.path.abspath(str(p)) == os.path.abspath(path):
+                    ofault["n"] += 1
+                    k0, times, exc_name = ofault["spec"]
+                    if k0 <= ofault["n"] < k0 + times:
+                        ofault["last_failed"] = True
+                        raise {"PermissionError": PermissionError, "BlockingIOError": BlockingIOError,
+                               "InterruptedError": InterruptedError, "OSError": OSError}[exc_name](13, "injected: file is busy")
+                    ofault["last_failed"] = False
+                return real_open(p, mode, *a, **kw)
+            if step.get("open_fault") is not None:
+                tcs.open = flaky_open
             _watch.update(path=os.path.abspath(path), tmp=os.path.abspath(tmp), events=events)
             old_handler = signal.signal(signal.SIGALRM, _on_alarm)
             signal.setitimer(signal.ITIMER_REAL, watchdog)
@@ -441,6 +495,8 @@ def impl_session(steps, exc_class=TestRaised, ext=".txt", watchdog=60.0):
                     _watch.update(events=None)
                     if step.get("write_fault") is not None:
                         tcs.Testcase.dump = real_dump
+                    if step.get("open_fault") is not None:
+                        del tcs.open
             except CapHit:
                 res.exc = "CapHit"
             except Hang:
@@ -457,6 +513,8 @@ def impl_session(steps, exc_class=TestRaised, ext=".txt", watchdog=60.0):
             acc = [d for _, d, a in script.seen if a == "Y"]
             res.fault_last = (fault["k"] is not None and fault["n"] <= fault["k"]
                               and fault["intended"] == (acc[-1] if acc else step["file0"]))
+            if step.get("open_fault") is not None:
+                res.fault_last = ofault["last_failed"]      # the last attempt to open the file failed: nothing to check
             res.test_count = lith.test_count - before_count
             temp = []
             for f_ in sorted(os.listdir(tmp)):
